@@ -91,12 +91,12 @@ Ltac chks := unfold chk; repeat match goal with |- context [if ?b then _ else _]
 
 Lemma sil_tv : forall m e, sil e -> tv (mon_step m e) = tv m.
 Proof.
-  intros m e S. destruct e; try destruct S; cbn [mon_step]; try reflexivity.
+  intros m e S. destruct e; try destruct S; try (destruct n; [destruct S|]); cbn [mon_step]; try reflexivity.
   - cbv zeta. transitivity (tv (on_call m)); [|apply tv_on_call]. chks; reflexivity.
   - cbv zeta. transitivity (tv (on_call m)); [|apply tv_on_call]. chks; reflexivity.
   - cbv zeta. transitivity (tv (on_call m)); [|apply tv_on_call]. chks; reflexivity.
   - cbv zeta. transitivity (tv (on_call m)); [|apply tv_on_call]. chks; reflexivity.
-  - destruct n; [destruct S|]. cbv zeta. chks; reflexivity.
+  - cbv zeta. chks; reflexivity.
   - destruct (rc =? 0); [|reflexivity]. destruct (kind =? 0); [reflexivity|]. destruct (kind =? 1); reflexivity.
   - chks; reflexivity.
   - chks; reflexivity.
@@ -105,7 +105,7 @@ Qed.
 
 Lemma sil_good : forall m e, sil e -> Good2 m -> Good2 (mon_step m e).
 Proof.
-  intros m e S G. destruct e; try destruct S; cbn [mon_step]; try assumption.
+  intros m e S G. destruct e; try destruct S; try (destruct n; [destruct S|]); cbn [mon_step]; try assumption.
   - cbv zeta. pose proof (Good2_on_call m G) as GO.
     repeat g2step. exact GO.
   - cbv zeta. pose proof (Good2_on_call m G) as GO.
@@ -114,7 +114,7 @@ Proof.
     repeat g2step. exact GO.
   - cbv zeta. pose proof (Good2_on_call m G) as GO.
     repeat g2step. exact GO.
-  - destruct n; [destruct S|]. cbv zeta.
+  - cbv zeta.
     repeat g2step. exact G.
   - destruct (rc =? 0); [|assumption]. destruct (kind =? 0); [assumption|]. destruct (kind =? 1); assumption.
   - repeat g2step. assumption.
